@@ -191,6 +191,11 @@ def run_case(case):
     quat = rot.as_quat()
     for name, model in _models(shape, rng, axis, case["tier"]):
         judge(name + ".get_missing_wedge_mask", model.get_missing_wedge_mask(quat))
+        # a quaternion buffer that the caller overwrites in place between two molecules
+        qbuf = np.array([0.5, -0.5, 0.5, 0.5])
+        model.get_missing_wedge_mask(qbuf)
+        qbuf[:] = quat
+        judge(name + ".get_missing_wedge_mask[reused buffer]", model.get_missing_wedge_mask(qbuf))
         ones = np.ones(shape, dtype=np.complex64)
         judge(name + ".mask_missing_wedge", np.abs(model.mask_missing_wedge(ones, quat)))
 
